@@ -17,9 +17,9 @@ RULE = ("ops = {fun, grad, fun_and_grad} x points {a, b, c, a' (equal to a, othe
         "raises and the caller goes on}; "
         "user functions scribble on their argument; modes callable, 2-point, 3-point, cs "
         "(with bounds); model = one memo cell (point, has_f, has_g) and a scale; BFS over "
-        "all model states x 19 ops with every edge executed on a fresh real ScalarFunction "
+        "all model states x 20 ops with every edge executed on a fresh real ScalarFunction "
         "by replaying the state's shortest history, and ALL histories to depth 4 (quick) / "
-        "depth 5 over all 19 ops in 4 modes and depth 6 over the 15 call ops in callable mode (thorough, first variant; depth 4 under the other variants); oracle per step: "
+        "depth 5 over all 20 ops in 4 modes and depth 6 over the 15 call ops in callable mode (thorough, first variant; depth 4 under the other variants); oracle per step: "
         "value == fresh user value x current scale (bitwise; finite-difference gradient vs a "
         "fresh approx_derivative with the same options), user calls at the requested point "
         "== model expectation (0 if cached), nfev/ngev deltas == logged calls/computations; "
@@ -32,7 +32,8 @@ ASSUMPTIONS = [
 MODES = ("callable", "2-point", "3-point", "cs")
 CALLS = [(k, p) for k in ("fun", "grad", "fg") for p in ("a", "b", "c", "a2", "an")]
 # "fail": the next user-function invocation raises (the caller catches it and goes on)
-OTHER = [("scale", 1.0), ("scale", 2.5), ("mut", None), ("fail", None)]
+# "mutret": the caller overwrites the gradient array it was last returned
+OTHER = [("scale", 1.0), ("scale", 2.5), ("mut", None), ("fail", None), ("mutret", None)]
 OPS = CALLS + OTHER
 ABS = {"a": "a", "b": "b", "c": "c", "a2": "a", "an": "an"}
 
@@ -69,7 +70,7 @@ def model_step(state, op, arg, mode):
     cell, hf, hg, sc = state
     if op == "scale":
         return (cell, hf, hg, arg), 0, 0
-    if op == "mut":
+    if op in ("mut", "mutret"):
         return state, 0, 0
     ap = ABS[arg]
     if cell != ap:
@@ -121,12 +122,20 @@ def execute(hist, mode, v):
     state = ("a", False, False, 1.0)
     last = None
     errs = []
+    lastret = [None]
     uncertain = False      # after a failed evaluation the model no longer predicts counts
     for k, (op, arg) in enumerate(hist):
         n0 = len(log)
         nf0, ng0 = sf.nfev, sf.ngev
         if op == "fail":
             armed[0] = True
+            continue
+        if op == "mutret":
+            if lastret[0] is not None:
+                try:
+                    lastret[0][...] = 777.0
+                except (ValueError, TypeError):
+                    pass
             continue
         prev_state = state
         state, exp_f, exp_g = model_step(state, op, arg, mode)
@@ -158,6 +167,8 @@ def execute(hist, mode, v):
         new = log[n0:]
         fv = out if op == "fun" else (out[0] if op == "fg" else None)
         gv = out if op == "grad" else (out[1] if op == "fg" else None)
+        if gv is not None and isinstance(gv, np.ndarray):
+            lastret[0] = gv
         sc = state[3]
         if fv is not None and not fv == Fv(truth) * sc:
             errs.append((k, "stale_or_wrong_value", dict(got=fv, want=Fv(truth) * sc)))
@@ -211,7 +222,7 @@ def cases(tier, variants):
                     for j in range(len(OPS)):
                         yield dict(part="hist", var=v, mode=mode, pre=[i, j], depth=4, alpha="all")
             else:
-                # depth 5 over all 19 ops under the first variant, depth 4 under the others;
+                # depth 5 over all 20 ops under the first variant, depth 4 under the others;
                 # depth 6 over the 15 call ops for the callable mode (first variant)
                 d = 5 if v == variants[0] else 4
                 for i in range(len(OPS)):
@@ -227,7 +238,7 @@ def cases(tier, variants):
 def nontrivial(hist):
     seen = set()
     for op, arg in hist:
-        if op in ("scale", "mut", "fail"):
+        if op in ("scale", "mut", "fail", "mutret"):
             return True
         if ABS[arg] in seen:
             return True
